@@ -29,8 +29,8 @@ import (
 // tokOf gives the abstract token of each argument for the Coq model of the command line (Model/Cmdline.v).
 type cmdShape []string
 
-var boolFlags = map[string]bool{"exitonfail": true, "countcalls": true, "i": true, "quiet": true, "trace": true, "demo": true, "no-liner": true}
-var strFlags = map[string]bool{"cpuprofile": true, "memprofile": true, "c": true}
+var boolFlags = map[string]bool{"countcalls": true, "quiet": true, "trace": true, "demo": true, "no-liner": true}
+var strFlags = map[string]bool{"cpuprofile": true, "memprofile": true}
 
 func tokOf(a string) string {
 	if len(a) < 2 || a[0] != '-' {
@@ -62,6 +62,27 @@ func tokOf(a string) string {
 			return "S=0"
 		}
 		return "X"
+	case name == "i" || name == "exitonfail":
+		t := "I"
+		if name == "exitonfail" {
+			t = "E"
+		}
+		if !has {
+			return t
+		}
+		b, err := strconv.ParseBool(val)
+		if err != nil {
+			return "X"
+		}
+		if b {
+			return t + "=1"
+		}
+		return t + "=0"
+	case name == "c":
+		if has {
+			return "CI"
+		}
+		return "C"
 	case boolFlags[name]:
 		if has {
 			if _, err := strconv.ParseBool(val); err != nil {
@@ -139,6 +160,7 @@ func cmdShapes(tier string, rng *lib.Rng) []cmdShape {
 func (s cmdShape) String() string { return strings.Join(s, " ") }
 
 type cmdRunner struct {
+	stdin   string
 	zygoBin string
 	dir     string
 	can     *Canary
@@ -165,7 +187,7 @@ func (r *cmdRunner) run(shape cmdShape, text string, limit time.Duration) (strin
 	cmd := exec.Command(r.zygoBin, argv...)
 	cmd.Dir = r.can.Cwd
 	cmd.Env = append(os.Environ(), r.can.EnvName+"="+r.can.TokEnv)
-	cmd.Stdin = strings.NewReader("")
+	cmd.Stdin = strings.NewReader(r.stdin)
 	outPath := filepath.Join(r.dir, "out.txt")
 	of, _ := os.Create(outPath)
 	cmd.Stdout = of
@@ -438,8 +460,8 @@ func modelSaysSandboxed(shape cmdShape) string {
 			on = true
 		case "S=0":
 			on = false
-		case "B", "VI":
-		case "V":
+		case "B", "VI", "CI", "I", "I=1", "I=0", "E", "E=1", "E=0":
+		case "V", "C":
 			i++
 		case "X":
 			return "rejected"
@@ -460,3 +482,306 @@ var knownPureSpecial = map[string]bool{"and": true, "or": true, "cond": true, "q
 	"defn": true, "begin": true, "let": true, "letseq": true, "assert": true, "defmac": true, "macexpand": true, "syntaxQuote": true,
 	"for": true, "set": true, "break": true, "continue": true, "newScope": true, "package": true, "return": true, "_ls": true,
 	"infix": true, "unquote": true, "unquote-splicing": true}
+
+
+// ---- sessions: every piece of text cmd/zygo evaluates in one run -------------------------------------------
+//
+// A session = command line + script (ending in an error or not) + text on standard input. Model/Cmdline.v
+// `session` says which phases happen (script; the repl a failed script drops into; the repl after -i; plain repl)
+// and on which kind of interpreter. The harness observes, per phase, which names are defined (the script phase
+// through the script, the repl phases through lines on stdin, with different markers), and runs canary calls
+// on the repl (which survives errors, so one process carries them all).
+
+type sessionShape struct {
+	argv  cmdShape
+	fails bool
+}
+
+func sessionShapes(tier string) []sessionShape {
+	var out []sessionShape
+	add := func(fails bool, a ...string) { out = append(out, sessionShape{cmdShape(a), fails}) }
+	for _, fails := range []bool{true, false} {
+		add(fails, "-sandbox", "-quiet", "-no-liner", "@SCRIPT@")
+		add(fails, "-no-liner", "--sandbox", "@SCRIPT@", "-sandbox=false")
+		add(fails, "-sandbox", "-i", "-no-liner", "-quiet", "@SCRIPT@")
+		add(fails, "-i=true", "-sandbox=true", "-no-liner", "@SCRIPT@", "-quiet", "-exitonfail")
+		add(fails, "-sandbox", "-exitonfail", "-no-liner", "@SCRIPT@")
+		add(fails, "-exitonfail", "-i", "-no-liner", "-quiet", "-sandbox", "@SCRIPT@")
+		add(fails, "-sandbox", "-exitonfail=false", "-i=false", "-no-liner", "@SCRIPT@", "-i")
+		// controls
+		add(fails, "-quiet", "-no-liner", "@SCRIPT@", "-sandbox")
+		add(fails, "-sandbox", "-sandbox=false", "-i", "-no-liner", "@SCRIPT@")
+	}
+	// no script: the plain repl; -c: the command only
+	add(false, "-sandbox", "-quiet", "-no-liner")
+	add(false, "-no-liner", "-quiet")
+	add(false, "-sandbox", "-no-liner", "-c", "@TEXT@", "-i")
+	if tier != "thorough" {
+		return out
+	}
+	for _, fails := range []bool{true, false} {
+		add(fails, "-sandbox", "-countcalls", "-no-liner", "@SCRIPT@", "x", "y")
+		add(fails, "-no-liner", "-sandbox", "-i", "--", "@SCRIPT@")
+		add(fails, "-sandbox=false", "-sandbox", "-no-liner", "-quiet", "@SCRIPT@", "-c", "(println 1)")
+	}
+	return out
+}
+
+type sessionObs struct {
+	Argv     string `json:"argv"`
+	Toks     string `json:"toks"`
+	Fails    bool   `json:"fails"`
+	Observed string `json:"observed"` // "script:sandboxed,repl:open" | "rejected"
+}
+
+func kindOfNames(def map[string]bool, complete bool, candidates []string, expected, open map[string]string) (kind string, unexpected []string) {
+	if !complete {
+		return "mixed", nil
+	}
+	missing := 0
+	for _, n := range candidates {
+		_, exp := expected[n]
+		if def[n] && !exp {
+			unexpected = append(unexpected, n)
+		}
+		if !def[n] && exp && expected[n] != "macro" {
+			missing++
+		}
+	}
+	sort.Strings(unexpected)
+	if len(unexpected) == 0 && missing == 0 {
+		return "sandboxed", nil
+	}
+	for n, k := range open {
+		if !def[n] && k != "macro" {
+			return "mixed", unexpected
+		}
+	}
+	return "open", unexpected
+}
+
+// runSessions: one process per session shape.
+func runSessions(root, zygoBin, tier string, candidates, specials []string, expected, open map[string]string, likely map[string]bool,
+	jobs *[]Job, results map[int]JobResult, stats map[string]int) (obsAll []sessionObs) {
+	shapes := sessionShapes(tier)
+	// canary calls sent to the repl: every name the tables consider effectful in the unrestricted interpreter
+	// (or, without tables, every candidate the sandbox does not bind), three telling argument shapes each,
+	// plus the binding-free entries
+	var names []string
+	for _, n := range candidates {
+		if _, exp := expected[n]; exp {
+			continue
+		}
+		if len(likely) > 0 && !likely[n] {
+			continue
+		}
+		if strings.ContainsAny(n, " \t\n()[]{}\"';`~^") || n == "" || n == "&" || n == "." || n == ":" {
+			continue
+		}
+		names = append(names, n)
+	}
+	sort.Strings(names)
+	type outT struct {
+		obs  sessionObs
+		jobs []Job
+		res  []JobResult
+	}
+	outs := make([]outT, len(shapes))
+	const par = 6
+	sem := make(chan int, par)
+	for w := 0; w < par; w++ {
+		sem <- w
+	}
+	done := make(chan bool, len(shapes))
+	for si := range shapes {
+		w := <-sem
+		go func(si, w int) {
+			defer func() { sem <- w; done <- true }()
+			sh := shapes[si]
+			dir := filepath.Join(root, "session"+strconv.Itoa(w))
+			os.MkdirAll(dir, 0755)
+			can := NewCanary(filepath.Join(dir, "world"), "S"+strconv.Itoa(w))
+			os.MkdirAll(can.Dir, 0755)
+			if err := can.Install(); err != nil {
+				panic(err)
+			}
+			// the script: name probe, then (for a failing script) a run-time error
+			var sb strings.Builder
+			for i, n := range candidates {
+				sb.WriteString("(cond (defined? " + quoteZ(n) + ") (println \"c08-sname " + strconv.Itoa(i) + " true\") (println \"c08-sname " + strconv.Itoa(i) + " false\"))\n")
+			}
+			sb.WriteString("(println \"c08-script-end\")\n")
+			if sh.fails {
+				sb.WriteString("(c08-no-such-function 1)\n")
+			}
+			scriptText := sb.String()
+			// standard input: name probe for the repl, then the canaries, each followed by a marker
+			var in strings.Builder
+			for i, n := range candidates {
+				in.WriteString("(cond (defined? " + quoteZ(n) + ") (println \"c08-rname " + strconv.Itoa(i) + " true\") (println \"c08-rname " + strconv.Itoa(i) + " false\"))\n")
+			}
+			var cj []Job
+			addC := func(kind, n string, shp []string) {
+				j := forms("bin", kind, n, shp, false)[0]
+				j.Form = "session-repl"
+				j.Argv = sh.argv
+				j.ScriptFile = "(println \"c08-script-end\")\n"
+				if sh.fails {
+					j.ScriptFile += "(c08-no-such-function 1)\n"
+				}
+				j.Tags = append(j.Tags, "session")
+				cj = append(cj, j)
+			}
+			for _, sf := range specials {
+				if !knownPureSpecial[sf] {
+					addC("special", sf, []string{aSecret})
+				}
+			}
+			for _, n := range names {
+				for _, shp := range [][]string{{aSecret}, {aCmd}, {aEnv}} {
+					addC("unbound", n, shp)
+				}
+			}
+			substS := func(s string, j int) string {
+				id := strconv.Itoa(j)
+				r := strings.NewReplacer("@OUT@", filepath.Join(can.Dir, "out-"+id+".txt"), "@PWNED@", filepath.Join(can.Dir, "pwned-"+id))
+				return subst(r.Replace(s), can)
+			}
+			in.WriteString("(println \"c08-canary-begin\")\n")
+			for i, j := range cj {
+				in.WriteString(substS(j.Script, i) + "\n")
+				in.WriteString("(println \"c08-smark-" + strconv.Itoa(i) + "\")\n")
+			}
+			st := map[string]int{}
+			r := &cmdRunner{zygoBin: zygoBin, dir: dir, can: can, stats: st}
+			out, code, timedOut := r.runIn(sh.argv, scriptText, in.String(), 90*time.Second)
+			o := &outs[si]
+			o.obs = sessionObs{Argv: sh.argv.String(), Toks: sh.argv.Toks(), Fails: sh.fails}
+			// which phases evaluated text, on which kind of interpreter
+			collect := func(marker string) (map[string]bool, bool, bool) {
+				def := map[string]bool{}
+				seen := 0
+				for _, ln := range strings.Split(out, "\n") {
+					f := strings.Fields(ln)
+					for i := 0; i+2 < len(f); i++ {
+						if f[i] == marker {
+							k, err := strconv.Atoi(f[i+1])
+							if err == nil && k >= 0 && k < len(candidates) {
+								seen++
+								if f[i+2] == "true" {
+									def[candidates[k]] = true
+								}
+							}
+							break
+						}
+					}
+				}
+				return def, seen > 0, seen >= len(candidates)
+			}
+			var phases []string
+			hasScript := strings.Contains(sh.argv.String(), "@SCRIPT@") || strings.Contains(sh.argv.String(), "@TEXT@")
+			sdef, sAny, sAll := collect("c08-sname")
+			rdef, rAny, rAll := collect("c08-rname")
+			replKind := ""
+			if sAny {
+				k, _ := kindOfNames(sdef, sAll, candidates, expected, open)
+				name := "script"
+				if strings.Contains(sh.argv.String(), "@TEXT@") {
+					name = "command"
+				}
+				phases = append(phases, name+":"+k)
+			}
+			if rAny {
+				replKind, _ = kindOfNames(rdef, rAll, candidates, expected, open)
+				name := "repl"
+				if hasScript && sh.fails {
+					name = "repl-after-failed-script"
+				} else if hasScript {
+					name = "repl-after-script"
+				}
+				phases = append(phases, name+":"+replKind)
+			}
+			switch {
+			case timedOut:
+				o.obs.Observed = "hang"
+			case len(phases) == 0 && code == 2:
+				o.obs.Observed = "rejected"
+			case len(phases) == 0:
+				o.obs.Observed = "nothing"
+			default:
+				o.obs.Observed = strings.Join(phases, ",")
+			}
+			// canaries on the repl
+			rest := out
+			if k := strings.Index(rest, "c08-canary-begin"); k >= 0 {
+				rest = rest[k:]
+			} else {
+				rest = ""
+			}
+			label := "bin"
+			if modelSaysSandboxed(sh.argv) != "yes" {
+				label = "full"
+			}
+			for i, j := range cj {
+				m := "c08-smark-" + strconv.Itoa(i)
+				k := strings.Index(rest, m)
+				if k < 0 {
+					break // the repl phase did not happen (or ended early): these canaries never ran
+				}
+				seg := rest[:k]
+				rest = rest[k+len(m):]
+				ob := &obs{effects: map[string]bool{}}
+				ob.add(can.ObserveText(seg))
+				if _, err := os.Lstat(filepath.Join(can.Dir, "pwned-"+strconv.Itoa(i))); err == nil {
+					ob.add([]string{"process"}, "canary shell command ran (pwned file created)")
+				}
+				if _, err := os.Lstat(filepath.Join(can.Dir, "out-"+strconv.Itoa(i)+".txt")); err == nil {
+					ob.add([]string{"file_write"}, "absent path was created")
+				}
+				det, _ := json.Marshal(ob.detail)
+				j.Cfg = label
+				o.jobs = append(o.jobs, j)
+				o.res = append(o.res, JobResult{Effects: ob.String(), Class: "session", Detail: string(det)})
+			}
+			_ = replKind
+		}(si, w)
+	}
+	for range shapes {
+		<-done
+	}
+	for _, o := range outs {
+		stats["session_shapes"]++
+		stats["binary_processes"]++
+		obsAll = append(obsAll, o.obs)
+		for i, j := range o.jobs {
+			j.ID = len(*jobs) + 1
+			*jobs = append(*jobs, j)
+			results[j.ID] = o.res[i]
+		}
+	}
+	return obsAll
+}
+
+// runIn: like run, with text on standard input
+func (r *cmdRunner) runIn(shape cmdShape, text, stdin string, limit time.Duration) (string, int, bool) {
+	r.stdin = stdin
+	defer func() { r.stdin = "" }()
+	return r.run(shape, text, limit)
+}
+
+// one canary of a session, alone (replay)
+func (r *cmdRunner) sessionOne(j Job) JobResult {
+	out, code, timedOut := r.runIn(cmdShape(j.Argv), j.ScriptFile, subst(j.Script, r.can)+"\n", 30*time.Second)
+	o := &obs{effects: map[string]bool{}}
+	o.add(r.can.ObserveText(out))
+	fe, fd := r.can.ObserveFiles()
+	o.add(fe, fd...)
+	class := "session"
+	if timedOut {
+		class = "hang"
+	}
+	_ = code
+	r.can.Install()
+	det, _ := json.Marshal(o.detail)
+	return JobResult{Effects: o.String(), Class: class, Detail: string(det)}
+}
